@@ -2636,3 +2636,224 @@ Proof.
   - intros a b Ha Hb NN. destruct (nth a (auto_labels n ignore false c) None) as [k|] eqn:EA; [|congruence].
     rewrite <- conn_connected. rewrite <- (C a b k Ha Hb EA). split; [intros <-; reflexivity|intros ->; reflexivity].
 Qed.
+(* ================= totality under automatic labelling ================= *)
+Theorem separate_with_total n cregs c ls :
+  no_empty_instr c -> length ls = n -> valid_labelling ls c -> clbits_ok cregs c ->
+  exists subs, separate_with n cregs (split_spec 0 c) ls = Ok (subs, qmap_of ls).
+Proof.
+  intros NE Ln V CL. unfold separate_with.
+  rewrite Ln, Nat.eqb_refl. simpl. rewrite qubit_map_spec. fold (qmap_of ls).
+  pose proof (valid_split_labels ls c 0 V) as VAL.
+  unfold separate_instructions.
+  destruct (sep_loop_total ls (split_spec 0 c) 0
+              (map (fun l => (l, [])) (unique_by_eq (qm_labels (qmap_of ls)))) VAL) as [ids ES].
+  rewrite ES.
+  assert (ES' : separate_instructions (split_spec 0 c) (qmap_of ls) = Ok ids) by exact ES.
+  apply separate_instructions_ok in ES' as [_ Eids].
+  pose proof (ogroups_spec ls) as OI. rewrite Ln in OI.
+  destruct (build_subcircuits_total (split_spec 0 c) (ogroups ls 0 []) (clbits_of cregs) ids) as [subs EB].
+  - intros [l idxs] Hid. rewrite Eids in Hid. apply in_map_iff in Hid as [l' [E Hl']]. inversion E; subst l' idxs.
+    simpl. rewrite (OInv_lookup _ _ _ l OI). rewrite (sel_filter0 ls l dummy_instr (split_spec 0 c)).
+    apply remap_all_total. intros inst Hinst. apply filter_In in Hinst as [Hinst HL].
+    apply okey_beq_eq in HL. apply inst_label_iff in HL as [_ A]. split.
+    + intros q Hq. apply omembers_in. split; [|now apply A].
+      specialize (A q Hq). destruct (Nat.lt_ge_cases q n) as [L|L]; [exact L|].
+      rewrite nth_overflow in A by lia. discriminate.
+    + intros k Hk. destruct (in_split_inv3 inst c 0 Hinst) as [_ [Hc|[v [q [i [-> _]]]]]].
+      * exact (CL inst k Hc Hk).
+      * destruct Hk.
+  - rewrite EB. eauto.
+Qed.
+
+(* the automatic labelling of separate_circuit (computed on the barrier-split circuit) is a valid labelling *)
+Lemma auto_labelling_valid n c :
+  no_empty_instr c -> in_range n c ->
+  valid_labelling (auto_labels n (fun _ => false) false (split_spec 0 c)) c.
+Proof.
+  intros NE R. set (sc := split_spec 0 c). set (L := auto_labels n (fun _ => false) false sc).
+  destruct (auto_components n (fun _ => false) sc (in_range_split n c 0 R)) as [LN [IDLE [CONN _]]]. fold L in LN, IDLE, CONN.
+  assert (LAB : forall i q, In i c -> In q (iqs i) -> exists l, nth q L None = Some l).
+  { intros i q Hi Hq. destruct (nth q L None) as [l|] eqn:E; [eauto|]. exfalso.
+    apply (IDLE q (R i q Hi Hq)) in E. apply touched_false_iff in E. unfold sc in E. rewrite touched_split in E.
+    apply touched_false_iff in E. exact (E i Hi Hq). }
+  intros i Hi. split.
+  - intros NS. destruct (iqs i) as [|q0 r] eqn:EQ; [exfalso; exact (NE i Hi EQ)|].
+    destruct (LAB i q0 Hi) as [l El]; [rewrite EQ; now left|]. exists l. split; [rewrite EQ; discriminate|].
+    intros q Hq. rewrite EQ in Hq.
+    assert (Hq0 : In q0 (iqs i)) by (rewrite EQ; now left).
+    assert (Hq' : In q (iqs i)) by (rewrite EQ; exact Hq).
+    rewrite <- El. symmetry. apply (CONN q0 q (R i q0 Hi Hq0) (R i q Hi Hq')); [congruence|].
+    apply rst_step. exists i. repeat split; auto. unfold sc. now apply in_split_plain.
+  - intros _ q Hq. exact (LAB i q Hi Hq).
+Qed.
+
+Theorem separate_total_auto n cregs c :
+  no_empty_instr c -> in_range n c -> clbits_ok cregs c ->
+  exists subs qm, separate_circuit n cregs c None = Ok (subs, qm).
+Proof.
+  intros NE R CL. unfold separate_circuit. rewrite (no_empty_barrier c NE).
+  rewrite split_barriers_spec by (now apply no_empty_barrier).
+  destruct (separate_with_total n cregs c (auto_labels n (fun _ => false) false (split_spec 0 c)) NE) as [subs E]; auto.
+  - apply auto_labels_length.
+  - now apply auto_labelling_valid.
+  - eauto.
+Qed.
+
+(* ================= instance tags are names: re-tagging a circuit renames the tags inside its denotation ================= *)
+Fixpoint rn (f : nat -> nat) (t : wt) : wt :=
+  match t with
+  | Zero => Zero
+  | App inst g k args => App (f inst) g k (map (rn f) args)
+  | PostM t' => PostM (rn f t')
+  end.
+Definition rn_state (f : nat -> nat) (s : hstate) : hstate :=
+  mkH (map (rn f) (hw s)) (map (option_map (rn f)) (hc s)).
+
+Lemma upd_map {A B} (g : A -> B) : forall (w : list A) i v, upd (map g w) i (g v) = map g (upd w i v).
+Proof. induction w as [|x w IH]; intros [|i] v; simpl; auto. now rewrite IH. Qed.
+
+Lemma apply_w_map {A B} (g : A -> B) (l : list (nat * A)) : forall w,
+  apply_w (map g w) (map (fun p => (fst p, g (snd p))) l) = map g (apply_w w l).
+Proof.
+  induction l as [|[i v] r IH]; intros w; simpl; [reflexivity|]. rewrite upd_map. apply IH.
+Qed.
+
+Lemma wire_rn f s q : wire (rn_state f s) q = rn f (wire s q).
+Proof. unfold wire, rn_state. simpl. change Zero with (rn f Zero) at 1. apply map_nth. Qed.
+
+Lemma out_writes_rn f tag g args : forall qs k,
+  out_writes (f tag) g (map (rn f) args) qs k = map (fun p => (fst p, rn f (snd p))) (out_writes tag g args qs k).
+Proof.
+  unfold out_writes. induction qs as [|q r IH]; intros k; simpl; [reflexivity|]. f_equal. apply IH.
+Qed.
+
+Lemma qwrites_rn f rd t i :
+  qwrites (fun q => rn f (rd q)) (f t, i) = map (fun p => (fst p, rn f (snd p))) (qwrites rd (t, i)).
+Proof.
+  unfold qwrites.
+  assert (EM : map (fun q => rn f (rd q)) (iqs i) = map (rn f) (map rd (iqs i))) by (now rewrite map_map).
+  destruct (iop i); try reflexivity; try (rewrite EM; apply out_writes_rn).
+  - destruct (iqs i) as [|q r]; [reflexivity|]. destruct (ics i); reflexivity.
+  - destruct (iqs i) as [|q r]; reflexivity.
+  - destruct (iqs i) as [|a [|b r]]; reflexivity.
+  - destruct (iqs i) as [|q r]; reflexivity.
+Qed.
+
+Lemma cwrites_rn f rd t i :
+  cwrites (fun q => rn f (rd q)) (f t, i) = map (fun p => (fst p, option_map (rn f) (snd p))) (cwrites rd (t, i)).
+Proof.
+  unfold cwrites. simpl. destruct (iop i); try reflexivity.
+  destruct (iqs i) as [|q r]; [reflexivity|]. destruct (ics i); reflexivity.
+Qed.
+
+Lemma hstep_rn f s t i : hstep (rn_state f s) (f t, i) = rn_state f (hstep s (t, i)).
+Proof.
+  rewrite (hstep_writes (rn_state f s)), (hstep_writes s).
+  rewrite (qwrites_ext (wire (rn_state f s)) (fun q => rn f (wire s q))) by (intros q _; apply wire_rn).
+  rewrite (cwrites_ext (wire (rn_state f s)) (fun q => rn f (wire s q))) by (intros q _; apply wire_rn).
+  rewrite qwrites_rn, cwrites_rn. unfold rn_state. simpl.
+  now rewrite (apply_w_map (rn f)), (apply_w_map (option_map (rn f))).
+Qed.
+
+Lemma hstep_tag_irrelevant s t t' i : creates_term i = false -> hstep s (t, i) = hstep s (t', i).
+Proof. unfold creates_term, hstep. destruct (iop i); try discriminate; reflexivity. Qed.
+
+Definition ctags (R : tcirc) : list nat := map fst (filter (fun ti => creates_term (snd ti)) R).
+
+Lemma hrun_retag f : forall R R' s,
+  map snd R' = map snd R -> ctags R' = map f (ctags R) ->
+  hrun (rn_state f s) R' = rn_state f (hrun s R).
+Proof.
+  induction R as [|[t i] R IH]; intros [|[t' i'] R'] s ES ET; try discriminate; [reflexivity|].
+  simpl in ES. inversion ES as [[Ei ER]]. subst i'.
+  change (hrun (rn_state f s) ((t', i) :: R')) with (hrun (hstep (rn_state f s) (t', i)) R').
+  change (hrun s ((t, i) :: R)) with (hrun (hstep s (t, i)) R).
+  unfold ctags in ET. simpl in ET. destruct (creates_term i) eqn:CT; simpl in ET.
+  - inversion ET as [[Et ET']]. rewrite hstep_rn. apply IH; auto.
+  - rewrite (hstep_tag_irrelevant _ t' (f t) i CT), hstep_rn. apply IH; auto.
+Qed.
+
+Lemma map_repeat' {A B} (g : A -> B) x n : map g (repeat x n) = repeat (g x) n.
+Proof. induction n; simpl; congruence. Qed.
+
+Lemma rn_state_init f n nc : rn_state f (hinit n nc) = hinit n nc.
+Proof.
+  unfold rn_state, hinit. simpl. now rewrite !map_repeat'.
+Qed.
+
+(* a renaming that sends the (distinct) creator tags of R to the program-order tags of the circuit map snd R *)
+Definition retag_fun (olds news : list nat) (t : nat) : nat :=
+  match index_of t olds with Some j => nth j news t | None => t end.
+
+Lemma retag_fun_spec olds news : NoDup olds -> length olds = length news -> map (retag_fun olds news) olds = news.
+Proof.
+  intros ND L. apply nth_ext with (d := retag_fun olds news 0) (d' := 0); [now rewrite map_length|].
+  intros j Hj. rewrite map_length in Hj. rewrite map_nth. unfold retag_fun at 1.
+  rewrite index_of_nth_NoDup by assumption. apply nth_indep. lia.
+Qed.
+
+Lemma retag_fun_inj olds news a b : NoDup olds -> NoDup news -> length olds = length news ->
+  In a olds -> In b olds -> retag_fun olds news a = retag_fun olds news b -> a = b.
+Proof.
+  intros NO NN L Ha Hb E. apply In_nth with (d := 0) in Ha as [i [Hi <-]]. apply In_nth with (d := 0) in Hb as [j [Hj <-]].
+  unfold retag_fun in E. rewrite !index_of_nth_NoDup in E by assumption.
+  f_equal. apply (proj1 (NoDup_nth news 0) NN); [lia|lia|].
+  rewrite (nth_indep news _ 0) in E by lia. rewrite (nth_indep news (nth j olds 0) 0) in E by lia. exact E.
+Qed.
+
+Lemma ctags_length_snd : forall R R', map snd R' = map snd R -> length (ctags R') = length (ctags R).
+Proof.
+  induction R as [|[t i] R IH]; intros [|[t' i'] R'] E; try discriminate; [reflexivity|]. simpl in E. inversion E; subst.
+  unfold ctags. simpl. destruct (creates_term i); simpl; [f_equal|]; now apply IH.
+Qed.
+
+(* the literally recomposed circuit: forget the tags, let denote re-tag in program order *)
+Theorem denote_retag n nc R :
+  NoDup (ctags R) ->
+  let f := retag_fun (ctags R) (ctags (tagc (map snd R))) in
+  denote n nc (map snd R) = rn_state f (hrun (hinit n nc) R) /\
+  (forall a b, In a (ctags R) -> In b (ctags R) -> NoDup (ctags (tagc (map snd R))) -> f a = f b -> a = b).
+Proof.
+  intros ND f.
+  assert (L : length (ctags R) = length (ctags (tagc (map snd R)))).
+  { symmetry. apply ctags_length_snd. apply tagc_snd. }
+  split.
+  - unfold denote. rewrite <- (rn_state_init f n nc) at 1. apply hrun_retag; [apply tagc_snd|].
+    symmetry. now apply retag_fun_spec.
+  - intros a b Ha Hb NN. now apply retag_fun_inj.
+Qed.
+
+(* program-order tags of creators are distinct *)
+Lemma tag_from_ctags : forall c k, ctags (tag_from k c) = seq k (length (filter creates_term c)).
+Proof.
+  unfold ctags. induction c as [|i r IH]; intros k; simpl; [reflexivity|].
+  destruct (creates_term i) eqn:CT; simpl; rewrite CT; simpl; [f_equal|]; apply IH.
+Qed.
+
+Lemma tagc_ctags_NoDup c : NoDup (ctags (tagc c)).
+Proof. unfold tagc. rewrite tag_from_ctags. apply seq_NoDup. Qed.
+
+(* c10_recompose on the literally recomposed circuit: forget the instance tags of the interleaving R; its denotation
+   (tags re-assigned in program order) is the denotation of the original with the instance tags renamed by f, and f is
+   injective on the tags in use *)
+Theorem separate_recompose_circuit n cregs c labels subs qm :
+  no_uuid c ->
+  separate_circuit n cregs c labels = Ok (subs, qm) ->
+  let ls := sep_labels n c labels in
+  forall nc (R : tcirc), visible R ->
+    (forall q, hproj q R = match nth q ls None with
+                           | Some l => hproj q (restrict_tagged ls l (tagc c))
+                           | None => []
+                           end) ->
+    (forall k, cproj k R = cproj k (tagc c)) ->
+    NoDup (ctags R) ->
+    let f := retag_fun (ctags R) (ctags (tagc (map snd R))) in
+    denote n nc (map snd R) = rn_state f (denote n nc c) /\
+    (forall a b, In a (ctags R) -> In b (ctags R) -> f a = f b -> a = b).
+Proof.
+  intros NU H ls nc R V HQ HC ND f.
+  destruct (separate_recompose n cregs c labels subs qm NU H) as [_ [_ [_ [_ REC]]]].
+  destruct (denote_retag n nc R ND) as [E INJ].
+  split; [|intros a b Ha Hb; exact (INJ a b Ha Hb (tagc_ctags_NoDup _))].
+  fold f in E. rewrite E. f_equal. now apply REC.
+Qed.
